@@ -148,6 +148,21 @@ theorem one_thread_inside (c : Cfg V E) (init : Pid → Entry V E) (progs : Tid 
   rw [h1] at h2
   exact Option.some.inj h2
 
+/-- Lock order: whoever holds the dispatcher's subscription lock holds the module's update lock (it is only taken
+around the notifications, inside the critical section). -/
+theorem sub_lock_nested (c : Cfg V E) (init : Pid → Entry V E) (progs : Tid → List (Op V E)) (clock : Int)
+    (s : Sys V E) (hn : c.conns.Nodup) (hr : Reach c (Sys.init init progs clock) s) (t : Tid)
+    (h : s.slock = some t) : s.lock = some t := by
+  have hi := inv_reach hn hr
+  cases hl : s.lock with
+  | none => have := hi.slFree hl; rw [this] at h; cases h
+  | some t0 =>
+    have := hi.slOwner t0 hl
+    rw [this] at h
+    split at h
+    · cases h; rfl
+    · cases h
+
 /-- For every schedule of any number of threads, in every reachable state, what an activated connection has
 received for a parameter is the message list of a sequential run of the funnel on that parameter: the run of
 the calls completed so far (`s.hist p`, in the order the lock was released), followed by the call in flight
@@ -178,6 +193,7 @@ theorem interleaving_atomic (c : Cfg V E) (init : Pid → Entry V E) (progs : Ti
       | go _ _ _ => rw [hpc] at hmid; exact same (hmid.2.2 k hk)
       | stamped _ _ _ => rw [hpc] at hmid; exact same (hmid.2.2 k hk)
       | errset _ _ _ => rw [hpc] at hmid; exact same (hmid.2.2 k hk)
+      | built _ _ _ _ => rw [hpc] at hmid; exact same (hmid.2.2.2 k hk)
       | sending _ now r m rest =>
         rw [hpc] at hmid
         obtain ⟨h1, h2, h3, done, h4, h5, h6⟩ := hmid
@@ -196,6 +212,25 @@ theorem interleaving_atomic (c : Cfg V E) (init : Pid → Entry V E) (progs : Ti
         rw [runR_snoc]
         exact hmid.2 k hk
     · exact clean (hcl p hpp)
+
+/-- The sequential run the logs are compared with is made of exactly the threads' calls: the global history of
+completed calls (`ghist`, in the order the update lock was released) is an interleaving of the threads' programs —
+its projection onto thread `t` is the beginning of the calls `t`'s program makes, in program order (all of them once
+`t` has finished), and its projection onto parameter `p` is `hist p`. -/
+theorem hist_is_interleaving (c : Cfg V E) (init : Pid → Entry V E) (progs : Tid → List (Op V E)) (clock : Int)
+    (s : Sys V E) (hr : Reach c (Sys.init init progs clock) s) :
+    (∀ t, ∃ rest, annR c.o (progs t) = doneBy t s.ghist ++ rest) ∧
+    (∀ t, finished s t = true → doneBy t s.ghist = annR c.o (progs t)) ∧
+    (∀ p, s.hist p = onParam p s.ghist) := by
+  have h := shuf_reach hr
+  refine ⟨fun t => ⟨_, (h.thread t).symm⟩, fun t hf => ?_, h.proj⟩
+  have ht := h.thread t
+  unfold finished at hf
+  split at hf
+  · rename_i hpc hprog
+    rw [hpc, hprog] at ht
+    simpa [inflight, annR] using ht
+  · cases hf
 
 /-- When no call is in flight, cache and logs of every parameter are exactly those of the sequential run of
 the completed calls. -/
@@ -279,8 +314,9 @@ theorem replay_eq_cache_needs_exact :
   ⟨⟨fun _ _ => true, fun v => .ok v, fun v => .ok v⟩, exE, [⟨101, .value 7 false⟩], by decide,
     fun h => absurd (h 0 1 rfl) (by decide)⟩
 
-/-- Recorded finding: a store into the cache that does not go through the funnel (`PersistentMixin.loadParameters`)
-breaks the statement — the cache changes, or leaves the error state, and no message says so. -/
+/-- A store into the cache that does not go through the funnel (as `PersistentMixin.loadParameters` and the simulated
+extra parameters did before their repair) breaks the statement — the cache changes, or leaves the error state, and no
+message says so. -/
 theorem load_parameters_fails :
     (∃ (e : Entry Nat Nat) (v : Nat), ¬ Reconstructs e.ve [⟨[], (poke e v).ve⟩]) ∧
     (∃ (e : Entry Nat Nat) (v : Nat), ¬ RecoveryAnnounced (fun s => s matches .err _) e.ve [⟨[], (poke e v).ve⟩]) :=
@@ -297,11 +333,13 @@ def exS0 : Sys Nat Nat := Sys.init exInit exProgs 101
 
 /-- thread 0 takes the access lock and the update lock, thread 1 is blocked at `acquire` (its step is not
 enabled) until thread 0 has notified both connections and released -/
-def exSched : List Tid := List.replicate 13 0 ++ List.replicate 10 1 ++ [0]
+def exSched : List Tid := List.replicate 14 0 ++ List.replicate 11 1 ++ [0]
 
 example : (runSched exCfg exS0 exSched).map (fun s => ((s.logs 1 0).map (·.msg.ve), (s.logs 2 0).map (·.msg.ve),
     (s.entries 0).ve, s.lock)) = some ([.val 6, .err 1], [.val 6, .err 1], .err 1, none) := by decide
 example : (runSched exCfg exS0 [0, 0, 1]).isNone = true := by decide
+example : (runSched exCfg exS0 exSched).map (fun s => (doneBy 0 s.ghist, doneBy 1 s.ghist, s.ghist.map (·.tid))) =
+    some ([(0, .val 6)], [(0, .err 1)], [0, 1]) := by decide
 
 /-- the hypotheses of the concurrent theorems are satisfiable by a state with a non-trivial log -/
 example : ∃ s, Reach exCfg exS0 s ∧ s.lock = none ∧ (s.logs 1 0).map (·.msg.ve) = [.val 6, .err 1] := by
